@@ -166,7 +166,7 @@ impl<'xml> Deserializer<'xml> {
                     return Ok(());
                 }
                 DeEvent::End(_) => return Err(unexpected_end()),
-                DeEvent::Text(_) => continue,
+                DeEvent::Text(t) => skip_white_space(&t)?,
                 DeEvent::Eof => return Err(unexpected_eof()),
             }
         }
@@ -183,7 +183,7 @@ impl<'xml> Deserializer<'xml> {
                     }
                     return Ok(());
                 }
-                DeEvent::Text(_) => continue,
+                DeEvent::Text(t) => skip_white_space(&t)?,
                 DeEvent::Eof => return Err(unexpected_eof()),
             }
         }
@@ -196,12 +196,7 @@ impl<'xml> Deserializer<'xml> {
                 DeEvent::Start(_) => return Err(unexpected_start()),
                 DeEvent::End(_) => return Err(unexpected_end()),
                 // only white space may follow the root element
-                DeEvent::Text(t) => {
-                    if t.iter().all(u8::is_ascii_whitespace) {
-                        continue;
-                    }
-                    return Err(DeError::InvalidContent);
-                }
+                DeEvent::Text(t) => skip_white_space(&t)?,
                 DeEvent::Eof => return Ok(()),
             }
         }
@@ -228,8 +223,9 @@ impl<'xml> Deserializer<'xml> {
                     self.expect_end(name.as_ref())?;
                     return Ok(ans);
                 }
-                DeEvent::Text(_) => {
+                DeEvent::Text(t) => {
                     self.consume_peeked();
+                    skip_white_space(&t)?;
                 }
                 DeEvent::End(_) | DeEvent::Eof => {
                     return Err(unexpected_end());
@@ -254,8 +250,9 @@ impl<'xml> Deserializer<'xml> {
 
                     continue;
                 }
-                DeEvent::Text(_) => {
+                DeEvent::Text(t) => {
                     self.consume_peeked();
+                    skip_white_space(&t)?;
                     continue;
                 }
                 DeEvent::End(_) | DeEvent::Eof => {
@@ -328,6 +325,16 @@ impl<'xml> Deserializer<'xml> {
 impl fmt::Debug for Deserializer<'_> {
     fn fmt(&self, f: &mut fmt::Formatter<'_>) -> fmt::Result {
         f.debug_struct("Deserializer").finish_non_exhaustive()
+    }
+}
+
+/// Character data next to elements (before the root, between child elements, after the root)
+/// carries no value: only white space may appear there.
+fn skip_white_space(text: &[u8]) -> DeResult {
+    if text.iter().all(|b| matches!(b, b' ' | b'\t' | b'\r' | b'\n')) {
+        Ok(())
+    } else {
+        Err(DeError::InvalidContent)
     }
 }
 
